@@ -101,7 +101,13 @@ Conf(S, s, it, P, path) ==
     [] s.k = "map" -> IF it.mt # 5 \/ ~(P = "ledger" \/ (~it.indef /\ ShortestHead(it))) THEN Bad(path, "map-head")
                       ELSE ConfMapFields(S, s.a, it, P, path, 1)
     [] s.k = "table" -> IF it.mt # 5 \/ ~(P = "ledger" \/ (~it.indef /\ ShortestHead(it))) THEN Bad(path, "table-head")
-                        ELSE IF Len(it.kids) \div 2 < s.c THEN Bad(path, "table-min") ELSE ConfTable(S, s, it, P, path, 1)
+                        ELSE IF Len(it.kids) \div 2 < s.c THEN Bad(path, "table-min")
+                        \* (fresh profile: a map filled in another than ascending key order does not come back from the JSON form in that order)
+                        ELSE IF P = "fresh" /\ \E j \in 1..((Len(it.kids) \div 2) - 1) : LET x == it.kids[2*j-1] y == it.kids[2*j+1] IN
+                                  \/ (x.mt = 2 /\ y.mt = 2 /\ ~(Len(x.str) < Len(y.str) \/ (Len(x.str) = Len(y.str) /\ StrLt(x.str, y.str))))
+                                  \/ (x.mt = 0 /\ y.mt = 0 /\ ~Lt(ArgN(x), ArgN(y)))
+                             THEN Bad(path, "map-not-ascending")
+                        ELSE ConfTable(S, s, it, P, path, 1)
     [] s.k = "alt" -> FirstAlt(S, s.a, it, P, path, 1)
     [] s.k = "tagrange" -> IF it.mt = 6 /\ Small(it.arg) >= s.a /\ Small(it.arg) <= s.b /\ Short(it,P) THEN Conf(S, s.c, it.kids[1], P, Append(path, "tag")) ELSE Bad(path, "tagrange")
     [] s.k = "uintmax" -> IF it.mt = 0 /\ Short(it,P) /\ Small(it.arg) >= 0 /\ Small(it.arg) <= s.a THEN OK ELSE Bad(path, "uintmax")
